@@ -183,7 +183,12 @@ int inter_sscanf (svalue_t * arg, svalue_t * s0, svalue_t * s1, int num_arg) {
                   if (!reg)
                     error (regexp_error);
                   if (!regexec (reg, in_string) || (in_string != reg->startp[0]))
-                    return number_of_matches;
+                    {
+                      FREE ((char *) reg);
+                      if (regexp_too_deep)
+                        error (regexp_error);
+                      return number_of_matches;
+                    }
                   if (!skipme)
                     {
                       n = (size_t)(*reg->endp - in_string);
@@ -317,6 +322,11 @@ int inter_sscanf (svalue_t * arg, svalue_t * s0, svalue_t * s1, int num_arg) {
                         error (regexp_error);
                       if (!regexec (reg, in_string))
                         {
+                          if (regexp_too_deep)
+                            {
+                              FREE ((char *) reg);
+                              error (regexp_error);
+                            }
                           if (!skipme)
                             {
                               SSCANF_ASSIGN_SVALUE_STRING (string_copy (in_string, "sscanf"));
